@@ -316,7 +316,14 @@ def onToken (os : Bool) (tab : List CEntry) (plans : List Plan) (v : V) (t : Str
     | none => diff "exit-unexpected"
     | some w' => .ok { v with w := w' }
   else if t = "L" then diff "poller-goroutine-alive-after-Close-returned"
-  else if t.startsWith "!" then diff s!"harness{t}"
+  else if t.startsWith "!" then
+    -- a harness bound was hit: the line was ended and reports what WAS observed
+    let specUpd := v.specCb.filter isUpdateTok
+    if v.phase = .polling ∧ !specUpd.isEmpty ∧ (v.obsCb.filter isUpdateTok).isEmpty ∧ !(t.startsWith "!stuck-in") then
+      viol s!"update-missing poll={v.nPolls - 1} expected={join specUpd} got=nothing-within-the-bound({t})"
+    else if v.w.cur ∈ v.w.closed ∧ v.phase = .atSelect ∧ v.w.closer = .idle ∧ (t = "!stuck" ∨ t = "!nowake" ∨ t = "!watchdog") then
+      viol s!"lost-wake-up poll={v.nPolls - 1} no-poll-within-the-bound({t})"
+    else diff s!"harness{t}"
   else .error s!"BAD token {t}"
 
 def replay (os : Bool) (tab : List CEntry) (plans : List Plan) : V → List String → R
@@ -451,8 +458,15 @@ def handle : Handler
     let (_, cbA, triedA) := pollStep (fun b => b) (RState.init Bytes) envA
     let (_, cbB, triedB) := pollStep (fun b => b) (RState.init Bytes) envB
     let cb (l : List (Callback String)) : String := String.join (l.map (fun c => match c with | .update _ => "u" | .reportError _ => "e"))
-    let m := [s!"A:{cb cbA}:{",".intercalate (triedA.map verTok)}", s!"B:{cb cbB}:{",".intercalate ((triedB.take 1).map verTok)}"]
-    if out = m then "OK nt b=indep" else s!"DIFF model={" ".intercalate m}"
+    -- X and Y: two more v1alpha-only targets of one builder with overlapping polls; each has its own state
+    let a := s!"{cb cbA}:{",".intercalate (triedA.map verTok)}"
+    let m := [s!"A:{a}", s!"B:{cb cbB}:{",".intercalate ((triedB.take 1).map verTok)}", s!"X:{a}", s!"Y:{a}"]
+    if out = m then "OK nt b=indep"
+    else if out.any (fun f => (f.splitOn ":")[1]? = some "e") then
+      s!"VIOL update-missing Unimplemented-on-one-version-hid-the-working-version(all-methods-failed) model={" ".intercalate m}"
+    else if out.any (fun f => (f.splitOn ":")[1]? = some "-") then
+      s!"VIOL update-missing first-successful-poll-delivered-nothing-within-the-bound model={" ".intercalate m}"
+    else s!"DIFF model={" ".intercalate m}"
   | "hist" :: rest, out => handleHist ("hist" :: rest) out
   | ["hsvc", a, b], [out] =>
     match parseHexList a, parseHexList b with
